@@ -32,8 +32,9 @@ def main():
     ap.add_argument("--check")
     ap.add_argument("--runs")
     ap.add_argument("--tier", default="quick")
+    ap.add_argument("--root", default="seeded", help="seeded (property-breaking) or benign (property-preserving)")
     args = ap.parse_args()
-    sdir = os.path.join(VERIF, "seeded", args.seed)
+    sdir = os.path.join(VERIF, args.root, args.seed)
     base = tempfile.mkdtemp(prefix="seedcheck-", dir="/tmp")
     mod, clean = os.path.join(base, "mod"), os.path.join(base, "clean")
     out = {"seed": args.seed}
@@ -54,27 +55,27 @@ def main():
         if args.demo:
             ddir = os.path.join(base, "demo")
             os.makedirs(ddir)
-            shutil.copy(os.path.join(sdir, "demo.py"), ddir)
+            for f in os.listdir(sdir):
+                if f.endswith(".py"):
+                    shutil.copy(os.path.join(sdir, f), ddir)
             for name, tree in (("demo_modified", mod), ("demo_clean", clean)):
                 r = sh(["timeout", "300", "/venv/bin/python", os.path.join(ddir, "demo.py")],
                        env=dict(env, DEMO_TREE=tree, PYTHONPATH=tree), cwd=ddir)
                 tail = (r.stdout.strip().splitlines() or [""])[-1][:200]
                 out[name] = {"exit": r.returncode, "last_line": tail}
-        if args.check:
-            cmd = ["timeout", "3000", os.path.join(VERIF, "run"), args.check, "--tier", args.tier]
+        for check in (args.check.split(",") if args.check else []):
+            cmd = ["timeout", "3000", os.path.join(VERIF, "run"), check, "--tier", args.tier]
             if args.runs:
                 cmd += ["--runs", args.runs]
-            # evidence of a mutant run must not replace the real evidence
-            ev = os.path.join(VERIF, "evidence", args.check + ".json")
-            keep = open(ev).read() if os.path.exists(ev) else None
             r = sh(cmd, env=dict(env, VERIF_REPO=mod), cwd=VERIF)
-            if keep is not None:
-                open(ev, "w").write(keep)
             lines = r.stdout.splitlines()
-            out["check"] = {"check": args.check, "exit": r.returncode,
-                            "violations": [l[:300] for l in lines if l.startswith("violation:")][:3],
-                            "violation_lines": sum(1 for l in lines if l.startswith("VIOLATION")),
-                            "harness": [l[:300] for l in lines if l.startswith("HARNESS")][:3]}
+            out.setdefault("checks", []).append(
+                {"check": check, "exit": r.returncode,
+                 "violations": [l[:300] for l in lines if l.startswith("violation:")][:3],
+                 "violation_lines": sum(1 for l in lines if l.startswith("VIOLATION")),
+                 "known": [l[:200] for l in lines if l.startswith("KNOWN-FINDING")][:3],
+                 "harness": [l[:300] for l in lines if l.startswith("HARNESS")][:3],
+                 "stderr_tail": r.stderr[-300:] if r.returncode not in (0, 1) else ""})
         print(json.dumps(out, indent=1))
         return 0
     finally:
